@@ -489,3 +489,6 @@ func (n *Node) CheckWALRotation() {
 		n.WAL.syncPoint("walsync rotate")
 	}
 }
+
+// WALPath: the head file of the node's on-disk WAL ("" for in-memory WALs).
+func (n *Node) WALPath() string { return n.WAL.path }
